@@ -399,6 +399,15 @@ func (s *Script) evalWithRoot(stack, data, root any) (any, Expr) {
 	return stack, locs
 }
 
+// sameValue compares two operands with == but never panics. Values of
+// uncomparable types such as maps and slices are never the same.
+func sameValue(left, right any) bool {
+	if rt := reflect.TypeOf(left); rt != nil && !rt.Comparable() {
+		return false
+	}
+	return left == right
+}
+
 func normalize(v any) any {
 	switch tv := v.(type) {
 	case int:
@@ -467,7 +476,7 @@ func evalStack(sstack []any) []any {
 		case group.code:
 			sstack[i] = left
 		case eq.code:
-			if left == right {
+			if sameValue(left, right) {
 				sstack[i] = true
 			} else {
 				sstack[i] = false
@@ -482,7 +491,7 @@ func evalStack(sstack []any) []any {
 				}
 			}
 		case neq.code:
-			if left == right {
+			if sameValue(left, right) {
 				sstack[i] = false
 			} else {
 				sstack[i] = true
@@ -492,8 +501,9 @@ func evalStack(sstack []any) []any {
 						sstack[i] = ok && float64(tl) != tr
 					}
 				case float64:
-					tr, ok := right.(int64)
-					sstack[i] = ok && tl != float64(tr)
+					if tr, ok := right.(int64); ok {
+						sstack[i] = tl != float64(tr)
+					}
 				}
 			}
 		case lt.code:
@@ -682,7 +692,7 @@ func evalStack(sstack []any) []any {
 			sstack[i] = false
 			if list, ok := right.([]any); ok {
 				for _, ev := range list {
-					if left == ev {
+					if sameValue(left, ev) {
 						sstack[i] = true
 						break
 					}
